@@ -12,7 +12,7 @@ TFir == /\ Ev.e = "Fir" /\ Ev.o = "ret"
         /\ Ev.firtype = SymFirType(Ev.len)
         /\ (Ev.type = "low") => Ev.dc_milli <= 1000           \* |sum h - 1| <= 64 n eps
         /\ (Ev.type = "high") => Ev.nyq_milli <= 1000         \* ||sum (-1)^i h| - 1| <= 64 n eps
-        /\ Applicable(Ev.type, Ev.n, Ev.w1, Ev.w2) =>
+        /\ (Ev.masks /\ Applicable(Ev.type, Ev.n, Ev.w1, Ev.w2)) =>
               (Ev.hw = HalfWidth(Ev.n) /\ Ev.pass_ppm <= 20000 /\ Ev.stop_ppm <= 20000)
 (* a custom window is accepted iff its length is the design's tap count *)
 TFirWin == /\ Ev.e = "FirWin"
